@@ -235,11 +235,26 @@ def C02():
         chk.units.append(n)
         total += r_reg.run_jobs(chk, u, "R-REG.eval", _jobs("r_reg_spl", "eval_suite", range(2, nmax + 1), nmax=nmax,
                                                             orders=(0, 1, 2, 3)))
+    # the value: a(x) as an exact affine form in the coefficients (weights (x - midpoint)^p computed from the grid)
+    for n in _cases_units():
+        total += r_reg.run_jobs(chk, F.load(n), "R-REG.kernel", _kernel_jobs(("eval",)))
+        chk.units.append(n)
+    chk.assume(KERNEL_ASSUME)
     chk.note("regions_evaluated", total)
     chk.note("grid_size_bound", nmax)
     chk.exhaustive = True
     chk.floor("R-REG.eval", chk.rules["R-REG.eval"]["instances"], 5, "(function, clause) obligations")
     return chk
+
+
+KERNEL_ASSUME = ("kernel values: every weight is a polynomial in the grid points whose degree the evaluation bounds (ring "
+                 "operations only - the suite asserts that the kernel neither compares nor divides by data); agreement with "
+                 "the specified polynomial on degree+1 distinct interval widths (and 2-3 offsets) is agreement for every "
+                 "width; dependence on the absolute position beyond the sampled offsets is not excluded")
+
+
+def _kernel_jobs(parts, **kw):
+    return [("bsv.r_reg_ops", "kernel_suite", dict(kw, ns=[n], parts=parts)) for n in (2, 3)]
 
 
 def C15():
@@ -300,6 +315,9 @@ def C03():
                                                               nmax=nmax))
         total += r_reg.run_jobs(chk, u, "R-REG.lincomb", _jobs("r_reg_spl", "lincomb_suite", range(3, nmax + 1),
                                                                nmax=nmax))
+        # the numeric Cauchy product: with b running over unit coefficient vectors every product coefficient is exactly
+        # one coefficient of a (weights 1)
+        total += r_reg.run_jobs(chk, u, "R-REG.kernel", _kernel_jobs(("mul",), order_pairs=tuple(pairs)))
     chk.note("regions_evaluated", total)
     chk.note("grid_size_bound", nmax)
     chk.note("order_pairs", [list(p) for p in pairs])
@@ -365,11 +383,14 @@ def C04():
         chk.units.append(n)
         total += r_reg.run_jobs(chk, u, "R-REG.op", _ops_jobs("operator_suite", nmax,
                                                               cases=sorted(r_reg_ops.PRIMITIVE)))
+        # the value of x^m a: exact re-expansion weights C(m,k) midpoint^(m-k) on a 4 x 4 tensor of offsets and widths
+        total += r_reg.run_jobs(chk, u, "R-REG.kernel", _kernel_jobs(("pos",)))
         total += r_reg.run_jobs(chk, u, "R-REG.const", [("bsv.r_reg_ops", "constant_table_suite", dict(nmax=9))])
     chk.note("regions_evaluated", total)
     chk.note("grid_size_bound", nmax)
     chk.exhaustive = True
     chk.floor("R-REG.op", chk.rules["R-REG.op"]["instances"], 10, "operator cases")
+    chk.assume(KERNEL_ASSUME)
     return chk
 
 
@@ -426,6 +447,8 @@ def C06():
         u = F.load(n)
         chk.units.append(n)
         total += r_reg.run_jobs(chk, u, "R-REG.bf", _ops_jobs("bilinear_suite", nmax))
+        total += r_reg.run_jobs(chk, u, "R-REG.kernel", _kernel_jobs(
+            ("bf",), order_pairs=((0, 0), (0, 1), (1, 0), (1, 1), (2, 1), (0, 3), (2, 2))))
     chk.note("regions_evaluated", total)
     chk.exhaustive = True
     chk.floor("R-REG.bf", chk.rules["R-REG.bf"]["instances"], 6, "bilinear-form cases")
@@ -451,6 +474,7 @@ def C07():
         u = F.load(n)
         chk.units.append(n)
         total += r_reg.run_jobs(chk, u, "R-REG.lf", _ops_jobs("linear_suite", nmax))
+        total += r_reg.run_jobs(chk, u, "R-REG.kernel", _kernel_jobs(("lf",)))
     chk.note("regions_evaluated", total)
     chk.exhaustive = True
     chk.floor("R-REG.lf", chk.rules["R-REG.lf"]["instances"], 5, "linear-form cases")
